@@ -127,6 +127,16 @@ def check(ctx):
                   "registers with the constant ReactorMode::%s" % mode, "ReactCommands::%s registers with mode %s (documented: %s)" % (nm, got, mode))
 
     # ---- C07.b holders have releases ----
+    def _owned(ty):
+        """the part of a field type that *owns* what it mentions: a shared / mutable borrow (`&'a T`, `&'a [T]`), a borrowing slice
+        iterator and an `Option` of those lend the handles of another holder - they can neither keep one alive nor drop it"""
+        t_ = ty.strip()
+        m_ = re.match(r"^core::option::Option<(.*)>$", t_)
+        if m_:
+            return _owned(m_.group(1))
+        if t_.startswith("&") or re.match(r"^core::slice::iter::Iter(Mut)?<", t_):
+            return ""
+        return t_
     holders = []
     # a type holds a handle if it mentions a handle type or (transitively) a crate record with a holder field
     holding_adts = set()
@@ -139,7 +149,7 @@ def check(ctx):
                 continue
             for v in adt["variants"]:
                 for f in v["fields"]:
-                    if any(h in f["ty"] for h in HANDLE_TYPES) or any(re.search(r"(?<![\w:])%s(?![\w])" % re.escape(q), f["ty"]) for q in holding_adts):
+                    if any(h in _owned(f["ty"]) for h in HANDLE_TYPES) or any(re.search(r"(?<![\w:])%s(?![\w])" % re.escape(q), _owned(f["ty"])) for q in holding_adts):
                         holding_adts.add(p)
                         grew = True
     for p, adt in prog.adts.items():
@@ -147,7 +157,7 @@ def check(ctx):
             continue
         for v in adt["variants"]:
             for f in v["fields"]:
-                if any(h in f["ty"] for h in HANDLE_TYPES) or any(re.search(r"(?<![\w:])%s(?![\w])" % re.escape(q), f["ty"]) for q in holding_adts if q != p):
+                if any(h in _owned(f["ty"]) for h in HANDLE_TYPES) or any(re.search(r"(?<![\w:])%s(?![\w])" % re.escape(q), _owned(f["ty"])) for q in holding_adts if q != p):
                     holders.append((p, v["name"], f["name"], f["ty"]))
     ctx.floor("C07.b", len(holders), 11, "holder fields (type mentions ReactorHandle / AutoDespawnSignal)")
     comp_impls = {im.get("self_adt") for im in prog.impls if (im.get("trait") or "").endswith("component::Component")}
@@ -182,6 +192,11 @@ def check(ctx):
             # a plain record owned by another holder field: dropped (or moved out field by field) with its owner, whose own
             # release obligation is checked above
             ctx.ok("C07.b", "%s:released-with-owning-record" % key, "", "field of a record stored in another holder")
+        elif adt not in owned_elsewhere and any(st["k"] == "assign" and "use" in st["rv"] and "move" in st["rv"]["use"] and lib.field_of(st["rv"]["use"]["move"]) == (adt, field)
+                                                for body in prog.bodies for b, i, st in body.iter_stmts()):
+            # a plain by-value record (a private parameter object): not a place where handles rest - its field is moved out
+            # again by the function that receives it; what that function does with the handle is the receiving holder's rule
+            ctx.ok("C07.b", "%s:moved-out-by-value" % key, "", "field of a by-value record, moved out by its consumer")
         else:
             ctx.fail("C07.b", "%s:no-release" % key, "", "holder field %s: %s has no release operation anywhere in the crate (handles stored there are never dropped)" % (key, ty))
     ctx.sample({"holders": ["%s.%s" % (a.split("::")[-1], f) for a, v, f, t in holders]})
